@@ -46,7 +46,7 @@ HOSTS = [
 
 
 def plan(tier, seed):
-    n = 12 if tier == "quick" else 600
+    n = 60 if tier == "quick" else 1500
     jobs = []
     for hi in range(len(HOSTS)):
         for i in range(n):
